@@ -3,6 +3,7 @@ from dataclasses import dataclass, field, fields
 from typing import Union
 from math import isclose
 import fractions
+import numbers
 
 from .settings import *
 
@@ -74,6 +75,11 @@ class Fraction:
         elif isinstance(other, tuple):
             return Fraction(self.num*other[0], self.den*other[1])
         elif isinstance(other, float) and not other.is_integer():
+            other = fractions.Fraction(other).limit_denominator(1000)
+            return Fraction(self.num*other.numerator, self.den*other.denominator)
+        elif isinstance(other, numbers.Real) and not isinstance(other, numbers.Integral) and other!=int(other):
+            # other real numbers (fractions.Fraction, numpy.float32 ...) must not be cut to whole numbers either
+            other = other if isinstance(other, numbers.Rational) else float(other)
             other = fractions.Fraction(other).limit_denominator(1000)
             return Fraction(self.num*other.numerator, self.den*other.denominator)
         else:
